@@ -109,6 +109,14 @@ def check_case(ctx, L, case):
 
 def run_shard(ctx):
     L = layout()
+    from .. import gen
+
+    if ctx.shard % 2 == 0:
+        # a list of ~1000 structures (several thousand events), judged outside hypothesis
+        collected = []
+        ctx.run_given(gen.long_lists(L), collected.append, 1 if ctx.quick() else 3, name="long-list")
+        for c in collected:
+            ctx.run_plain(lambda c=c: check_case(ctx, L, c), "long-list")
     wellformed_campaign(ctx, L, lambda case: check_case(ctx, L, case), 2 if ctx.quick() else 5, 4000 if ctx.quick() else 50000)
 
 
